@@ -10,7 +10,6 @@ import (
 
 	"github.com/karagenc/socket.io-go/internal/sync"
 
-	"github.com/fatih/structs"
 	"github.com/karagenc/socket.io-go/adapter"
 	eioparser "github.com/karagenc/socket.io-go/engine.io/parser"
 	"github.com/karagenc/socket.io-go/parser"
@@ -321,9 +320,17 @@ func (s *clientSocket) sendConnectPacket(authData any) {
 		m["offset"] = lastOffset
 
 		if authData != nil {
-			a := structs.New(&authData)
-			a.TagName = "json"
-			for k, v := range a.Map() {
+			// Merge the fields of the auth data (a struct, a pointer to a struct or a map, see `setAuth`)
+			// as the JSON encoder would write them.
+			var fields map[string]any
+			b, err := json.Marshal(authData)
+			if err == nil {
+				err = json.Unmarshal(b, &fields)
+			}
+			if err != nil {
+				s.onError(wrapInternalError(fmt.Errorf("auth data couldn't be merged with the session ID: %w", err)))
+			}
+			for k, v := range fields {
 				m[k] = v
 			}
 		}
